@@ -253,10 +253,18 @@ def cert_bundle_eids(cert_der):
     return out
 
 
+def _unprot_map(unprot):
+    ''' The additional unprotected parameters (parameter 4) are an encoded header map. '''
+    extra = _py(cb.parse(unprot)) if unprot else {}
+    if not isinstance(extra, dict):
+        raise CoseError('additional unprotected parameters are not a map')
+    return extra
+
+
 def sign1_identity_ok(asb):
     ''' The end-entity certificate of a Sign1 result must name the security source. '''
     _scope, _prot, unprot = params_of(asb)
-    extra = _py(cb.parse(unprot)) if unprot else {}
+    extra = _unprot_map(unprot)
     chain = extra.get(33)
     if isinstance(chain, bytes):
         chain = [chain]
@@ -337,7 +345,7 @@ def verify_bib(bundle, bib_blk, keys):
     if asb['ctx'] != 3:
         raise CoseError('unknown security context %r' % asb['ctx'])
     _scope, _prot, unprot = params_of(asb)
-    extra = _py(cb.parse(unprot)) if unprot else {}
+    extra = _unprot_map(unprot)
     if len(asb['results']) != len(asb['targets']):
         raise CoseError('results do not match targets')
     for tnum, results in zip(asb['targets'], asb['results']):
@@ -361,7 +369,7 @@ def decrypt_bcb(bundle, bcb_blk, keys):
     if asb['ctx'] != 3:
         raise CoseError('unknown security context %r' % asb['ctx'])
     _scope, _prot, unprot = params_of(asb)
-    extra = _py(cb.parse(unprot)) if unprot else {}
+    extra = _unprot_map(unprot)
     out = {}
     for tnum, results in zip(asb['targets'], asb['results']):
         target = next((b for b in bundle['blocks'] if b['num'] == tnum), None)
